@@ -930,6 +930,10 @@ class _MissingImportFinder:
 
         def visit_MatchAs(self, node:MatchAs):
             logger.debug("visit_MatchAs(%r)", node)
+            if node.pattern is not None:
+                # ``case <pattern> as name``: the sub-pattern can read names
+                # (``case json.A as y``).
+                self.visit(node.pattern)
             if node.name is None:
                 return
             isinstance(node.name, str), node.name
